@@ -113,6 +113,78 @@ func behave(g G, what string, canFail bool) (fail bool) {
 	return false
 }
 
+// c20Plugins: two harness plugins whose callbacks log their entry and exit and behave as
+// the tape says (return, yield, sleep, fail, re-enter Resolve). The first end callback also
+// logs a digest of every output file (used by the Serve checks).
+func c20Plugins(g G, root string) []api.Plugin {
+	mkPlugin := func(idx int, full bool) api.Plugin {
+		name := fmt.Sprintf("verif-p%d", idx)
+		return api.Plugin{Name: name, Setup: func(b api.PluginBuild) {
+			b.OnStart(func() (api.OnStartResult, error) {
+				verifsim.LogEvent("cb<", idx, 0, "start", "")
+				fail := behave(g, "start", true)
+				verifsim.LogEvent("cb>", idx, 0, "start", "")
+				if fail {
+					return api.OnStartResult{Errors: []api.Message{{Text: "start failed on purpose"}}}, nil
+				}
+				return api.OnStartResult{}, nil
+			})
+			if full {
+				b.OnResolve(api.OnResolveOptions{Filter: `.*`}, func(a api.OnResolveArgs) (api.OnResolveResult, error) {
+					if a.PluginData == "reentrant" {
+						return api.OnResolveResult{}, nil
+					}
+					verifsim.LogEvent("cb<", idx, 0, "resolve", a.Path)
+					if g.n(12) == 0 && a.Kind != api.ResolveEntryPoint {
+						// re-enter the API from within a callback
+						b.Resolve(a.Path, api.ResolveOptions{ResolveDir: a.ResolveDir, Kind: a.Kind, Importer: a.Importer, PluginData: "reentrant"})
+					}
+					behave(g, "resolve", false)
+					verifsim.LogEvent("cb>", idx, 0, "resolve", a.Path)
+					return api.OnResolveResult{}, nil
+				})
+				b.OnLoad(api.OnLoadOptions{Filter: `.*`}, func(a api.OnLoadArgs) (api.OnLoadResult, error) {
+					verifsim.LogEvent("cb<", idx, 0, "load", a.Namespace+":"+a.Path+a.Suffix)
+					behave(g, "load", false)
+					verifsim.LogEvent("cb>", idx, 0, "load", a.Namespace+":"+a.Path+a.Suffix)
+					return api.OnLoadResult{}, nil
+				})
+			}
+			b.OnEnd(func(r *api.BuildResult) (api.OnEndResult, error) {
+				verifsim.LogEvent("cb<", idx, 0, "end", resultDigest(r)+" "+observedVersions(r))
+				if idx == 0 {
+					verifsim.LogEvent("files", idx, len(r.Errors), "", outputFilesDigest(r, root))
+				}
+				fail := behave(g, "end", true)
+				f := 0
+				if fail {
+					f = 1
+				}
+				verifsim.LogEvent("cb>", idx, f, "end", "")
+				if fail {
+					return api.OnEndResult{Errors: []api.Message{{PluginName: "verif-onend", Text: "end failed on purpose"}}}, nil
+				}
+				return api.OnEndResult{}, nil
+			})
+			b.OnDispose(func() {
+				verifsim.LogEvent("cb<", idx, 0, "ondispose", "")
+				verifsim.LogEvent("cb>", idx, 0, "ondispose", "")
+			})
+		}}
+	}
+	return []api.Plugin{mkPlugin(0, true), mkPlugin(1, false)}
+}
+
+// outputFilesDigest: "rel=digest;..." of a result's output files, sorted by path.
+func outputFilesDigest(r *api.BuildResult, root string) string {
+	var parts []string
+	for _, f := range r.OutputFiles {
+		parts = append(parts, fmt.Sprintf("%s=%016x", stripRoot(f.Path, root), fnv64(string(f.Contents))))
+	}
+	sort.Strings(parts)
+	return strings.Join(parts, ";")
+}
+
 type c20Build struct {
 	first, last     int // event positions (N) of the first callback entry and the final end-callback exit
 	firstSeq        int
@@ -127,20 +199,36 @@ type c20Build struct {
 	complete        bool
 	endTask         int // task that ran the end callbacks = the goroutine that owns the build
 	endExt          int // event position until which the context may still consider the build active
+	lastAt          int64 // simulated time of the final end-callback exit
+	firstAt         int64
+	errors          int  // number of errors the first end callback saw
+	endFailed       bool // an end callback returned an error
+}
+
+type c20Read struct{ File, Version, Call, Return int }
+
+// c20Extra lets the Serve scenario extend the history check.
+type c20Extra struct {
+	// TimeEndExt: a build whose owning goroutine logs nothing afterwards (the HTTP handler
+	// or the delayed first build of Serve) counts as in progress only until simulated time
+	// has moved 100 ms past its last end callback (time only advances when no task is
+	// runnable, so by then the owner has cleared the active build).
+	TimeEndExt bool
+	Reads      []c20Read // further reads of the per-file registers (files served over HTTP)
+	Check      func(builds []*c20Build, viol func(class, f string, a ...interface{}) *Violation) *Violation
 }
 
 func scenarioC20(rc *RunCtx) *Violation {
-	if rc.G.n(4) == 0 {
+	switch rc.G.n(8) {
+	case 0, 1:
 		return scenarioC20Service(rc)
+	case 2, 3, 4:
+		return scenarioC20Serve(rc)
 	}
 	g := rc.G
 	p := GenProject(g, "/p")
 	// small projects: histories must stay short
-	if len(p.Mods) > 8 {
-		for _, m := range p.Mods[8:] {
-			m.Deleted = true
-		}
-	}
+	p.Trim(8)
 	for _, m := range p.Mods {
 		m.Feat &^= FeatWarn | FeatSourceMapComment
 		m.Broken = false
@@ -188,59 +276,7 @@ func scenarioC20(rc *RunCtx) *Violation {
 	rc.Sample("client_programs", progDesc)
 
 	opts := o.Build(p)
-	mkPlugin := func(idx int, full bool) api.Plugin {
-		name := fmt.Sprintf("verif-p%d", idx)
-		return api.Plugin{Name: name, Setup: func(b api.PluginBuild) {
-			b.OnStart(func() (api.OnStartResult, error) {
-				verifsim.LogEvent("cb<", idx, 0, "start", "")
-				fail := behave(g, "start", true)
-				verifsim.LogEvent("cb>", idx, 0, "start", "")
-				if fail {
-					return api.OnStartResult{Errors: []api.Message{{Text: "start failed on purpose"}}}, nil
-				}
-				return api.OnStartResult{}, nil
-			})
-			if full {
-				b.OnResolve(api.OnResolveOptions{Filter: `.*`}, func(a api.OnResolveArgs) (api.OnResolveResult, error) {
-					if a.PluginData == "reentrant" {
-						return api.OnResolveResult{}, nil
-					}
-					verifsim.LogEvent("cb<", idx, 0, "resolve", a.Path)
-					if g.n(12) == 0 && a.Kind != api.ResolveEntryPoint {
-						// re-enter the API from within a callback
-						b.Resolve(a.Path, api.ResolveOptions{ResolveDir: a.ResolveDir, Kind: a.Kind, Importer: a.Importer, PluginData: "reentrant"})
-					}
-					behave(g, "resolve", false)
-					verifsim.LogEvent("cb>", idx, 0, "resolve", a.Path)
-					return api.OnResolveResult{}, nil
-				})
-				b.OnLoad(api.OnLoadOptions{Filter: `.*`}, func(a api.OnLoadArgs) (api.OnLoadResult, error) {
-					verifsim.LogEvent("cb<", idx, 0, "load", a.Namespace+":"+a.Path+a.Suffix)
-					behave(g, "load", false)
-					verifsim.LogEvent("cb>", idx, 0, "load", a.Namespace+":"+a.Path+a.Suffix)
-					return api.OnLoadResult{}, nil
-				})
-			}
-			b.OnEnd(func(r *api.BuildResult) (api.OnEndResult, error) {
-				verifsim.LogEvent("cb<", idx, 0, "end", resultDigest(r)+" "+observedVersions(r))
-				fail := behave(g, "end", true)
-				f := 0
-				if fail {
-					f = 1
-				}
-				verifsim.LogEvent("cb>", idx, f, "end", "")
-				if fail {
-					return api.OnEndResult{Errors: []api.Message{{PluginName: "verif-onend", Text: "end failed on purpose"}}}, nil
-				}
-				return api.OnEndResult{}, nil
-			})
-			b.OnDispose(func() {
-				verifsim.LogEvent("cb<", idx, 0, "ondispose", "")
-				verifsim.LogEvent("cb>", idx, 0, "ondispose", "")
-			})
-		}}
-	}
-	opts.Plugins = []api.Plugin{mkPlugin(0, true), mkPlugin(1, false)}
+	opts.Plugins = c20Plugins(g, p.Root)
 
 	var zero api.BuildResult
 	zeroDigest := resultDigest(&zero)
@@ -310,10 +346,10 @@ func scenarioC20(rc *RunCtx) *Violation {
 		return v
 	}
 	ev := s.Events()
-	return checkC20History(rc, ev, d.TakeLog(), zeroDigest, progDesc, opts.Write)
+	return checkC20History(rc, ev, d.TakeLog(), zeroDigest, progDesc, opts.Write, nil)
 }
 
-func checkC20History(rc *RunCtx, ev []verifsim.Event, disk []verifsim.Op, zeroDigest string, progDesc []string, write bool) *Violation {
+func checkC20History(rc *RunCtx, ev []verifsim.Event, disk []verifsim.Op, zeroDigest string, progDesc []string, write bool, extra *c20Extra) *Violation {
 	viol := func(class, f string, a ...interface{}) *Violation {
 		var sb strings.Builder
 		for i, e := range ev {
@@ -358,7 +394,7 @@ func checkC20History(rc *RunCtx, ev []verifsim.Event, disk []verifsim.Op, zeroDi
 				continue
 			}
 			if cur == nil {
-				cur = &c20Build{first: e.N, firstSeq: e.Seq, loads: map[string]int{}, firstResolveLoad: -1}
+				cur = &c20Build{first: e.N, firstSeq: e.Seq, firstAt: e.At, loads: map[string]int{}, firstResolveLoad: -1}
 				builds = append(builds, cur)
 			}
 			switch e.S {
@@ -394,8 +430,12 @@ func checkC20History(rc *RunCtx, ev []verifsim.Event, disk []verifsim.Op, zeroDi
 			case "end":
 				// the build's callbacks are over when the last registered end callback
 				// returns, or when one fails
+				if e.B == 1 {
+					cur.endFailed = true
+				}
 				if e.A == 1 || e.B == 1 {
 					cur.last = e.N
+					cur.lastAt = e.At
 					cur.endTask = e.Task
 					cur.complete = true
 					cur = nil
@@ -409,7 +449,7 @@ func checkC20History(rc *RunCtx, ev []verifsim.Event, disk []verifsim.Op, zeroDi
 	for _, b := range builds {
 		b.endExt = len(ev)
 		for _, e := range ev[b.last+1:] {
-			if e.Task == b.endTask {
+			if e.Task == b.endTask || (extra != nil && extra.TimeEndExt && e.At > b.lastAt+int64(100*time.Millisecond)) {
 				b.endExt = e.N
 				break
 			}
@@ -571,6 +611,12 @@ func checkC20History(rc *RunCtx, ev []verifsim.Event, disk []verifsim.Op, zeroDi
 			reads++
 		}
 	}
+	if extra != nil {
+		for i, r := range extra.Reads {
+			ops = append(ops, porcupine.Operation{ClientId: 5000 + i, Input: regIn{false, r.File, r.Version}, Call: int64(r.Call), Output: r.Version, Return: int64(r.Return)})
+			reads++
+		}
+	}
 	if reads > 0 && len(ops) <= 400 {
 		model := porcupine.Model{
 			Partition: func(history []porcupine.Operation) [][]porcupine.Operation {
@@ -617,6 +663,11 @@ func checkC20History(rc *RunCtx, ev []verifsim.Event, disk []verifsim.Op, zeroDi
 			rc.Probe("register_history_linearizable")
 		default:
 			rc.Probe("register_check_inconclusive")
+		}
+	}
+	if extra != nil && extra.Check != nil {
+		if v := extra.Check(builds, viol); v != nil {
+			return v
 		}
 	}
 	rc.Note(fmt.Sprintf("builds:%d calls:%d", len(builds), len(calls)))
